@@ -39,7 +39,8 @@ SEARCH_RULE = ('DKW band eps_n = sqrt(ln(2/delta)/(2n)), delta = 1e-9.  Required
                'Statistical part only in the thorough tier / when an obligation is broken; the quick tier runs the '
                'deterministic oracles (exact estimators, param maps, KDE density = kernel estimate - also after the caller '
                'overwrites the training array in place -, supports, 4 moderately U-shaped Beta samples (n = 5000, every dataset '
-               'within 2 eps\'_n), object states (fresh / re-fitted / from_dict / clone give bit-identical parameters), configured candidate instances '
+               'within 2 eps\'_n), sample_size x bw_method x weights combinations (stored dataset bit-identical to the resample of the requested estimate '
+               'under the same numpy global seed), object states (fresh / re-fitted / from_dict / clone give bit-identical parameters), configured candidate instances '
                'reached through Univariate / GaussianMultivariate keep their options, numeric forms of user bounds, '
                'TruncatedGaussian on large-scale (1e3) asymmetrically truncated data (n = 5000, every dataset within '
                '2 eps\'_n / 3 eps\'_n), TruncatedGaussian with '
@@ -934,6 +935,66 @@ def beta_unit_width_oracle(ctx, seed, deep):
     return checked
 
 
+def _bw_of(spec):
+    """replayable description of a bw_method -> the object"""
+    if spec is None or isinstance(spec, str) and not spec.startswith('callable:'):
+        return spec
+    if isinstance(spec, str):
+        c = float(spec.split(':', 1)[1])
+        return lambda kde, c=c: c * kde.neff ** -0.2          # a callable rule: c times Scott's factor
+    return float(spec)
+
+
+def kde_resample_oracle(ctx, seed, deep):
+    """option COMBINATIONS: GaussianKDE(sample_size=k, bw_method=b[, weights=w]) - the stored dataset must be the resample
+    `scipy.stats.gaussian_kde(X, bw_method=b, weights=w).resample(k)` of the REQUESTED kernel estimate.  The clean source calls
+    `.resample(k)` without a seed, i.e. it draws from numpy's global stream: seeding np.random identically before the fit and
+    before the harness-side reference makes the two bit-identical."""
+    r = vc.rng_for(seed, 'C04', 'kde-resample')
+    rs = vc.np_rng(seed, 'C04', 'kde-resample')
+    checked = 0
+    specs = [round(r.uniform(0.03, 0.12), 3), 'silverman', f'callable:{round(r.uniform(0.1, 0.4), 3)}', 'scott', None,
+             round(r.uniform(1.5, 3.0), 2)]
+    for j, spec in enumerate(specs if deep else specs[:4]):
+        n = r.choice([30, 90])
+        X = np.concatenate([rs.normal(-4.0, 0.3, size=n // 2), rs.normal(5.0, 0.3, size=n - n // 2)]) * lognu(r, 0.1, 10)
+        weighted = j % 2 == 1
+        w = rs.uniform(0.1, 1.0, size=n) if weighted else None
+        k = n if weighted else r.choice([7, n // 2, 2 * n])       # weights are re-used on the stored dataset: k = n there
+        checked += kde_resample_one(ctx, {'X': X.tolist(), 'bw_method': spec, 'weights': None if w is None else w.tolist(),
+                                          'sample_size': k, 'np_random_seed': r.randrange(2 ** 31)})
+    return checked
+
+
+def kde_resample_one(ctx, inp):
+    from copulas.univariate import GaussianKDE
+    X = np.asarray(inp['X'], dtype=float)
+    w = None if inp['weights'] is None else np.asarray(inp['weights'], dtype=float)
+    k, s0 = inp['sample_size'], inp['np_random_seed']
+    ctx.count(f'kde.resample.bw={"scalar" if isinstance(inp["bw_method"], float) else str(inp["bw_method"]).split(":")[0]}'
+              f'.w={w is not None}')
+    st = np.random.get_state()
+    try:
+        np.random.seed(s0)
+        m = GaussianKDE(sample_size=k, bw_method=_bw_of(inp['bw_method']), weights=w)
+        m.fit(X)
+        stored = np.ravel(np.asarray(m._params['dataset'], dtype=float))
+        np.random.seed(s0)
+        ref = np.ravel(stats.gaussian_kde(X, bw_method=_bw_of(inp['bw_method']), weights=w).resample(k))
+    finally:
+        np.random.set_state(st)
+    if not (len(stored) == k and np.array_equal(stored, ref)):
+        h_req = math.sqrt(float(stats.gaussian_kde(X, bw_method=_bw_of(inp['bw_method']), weights=w).covariance[0, 0]))
+        near = lambda v: float(np.median(np.min(np.abs(np.asarray(v)[:, None] - X[None, :]), axis=1)))   # noqa: E731
+        ctx.fail_input('GaussianKDE.fit', inp,
+                       {'stored_dataset_head': stored[:6].tolist(), 'reference_resample_head': ref[:6].tolist(), 'stored_len': len(stored),
+                        'requested_kernel_width': h_req, 'median_distance_to_nearest_training_point': {'stored': near(stored), 'reference': near(ref)}},
+                       'with sample_size set the stored dataset is gaussian_kde(X, bw_method=<requested>, weights=<requested>)'
+                       '.resample(sample_size) - bit-identical under the same numpy global seed',
+                       'GaussianKDE.fit:resample-not-from-requested-estimate')
+    return 1
+
+
 BOUND_FORMS = {
     'int': lambda v: int(v), 'float': lambda v: float(v), 'np.float64': lambda v: np.float64(v),
     'np.float32': lambda v: np.float32(v), 'np.int64': lambda v: np.int64(v), 'np.int32': lambda v: np.int32(v),
@@ -1304,6 +1365,7 @@ def search(ctx, deep, seed=None):
     c_, large_stats = trunc_large_scale_oracle(ctx, seed, deep)
     checked += c_
     checked += trunc_bound_forms_oracle(ctx, seed, deep)
+    checked += kde_resample_oracle(ctx, seed, deep)
     checked += wrapper_route_oracle(ctx, seed, deep)
     checked += state_oracle(ctx, seed, deep)
     # --- bounded scipy-MLE family: support of the fitted Beta (deterministic)
@@ -1361,7 +1423,9 @@ def replay(ctx, payload):
     cls = payload.get('class', '')
     inp = payload.get('input', {})
     before = len(ctx.failing)
-    if cls == 'GaussianKDE.fit:model-aliases-caller-array' and 'X_overwrite' in inp:
+    if cls == 'GaussianKDE.fit:resample-not-from-requested-estimate' and 'np_random_seed' in inp:
+        kde_resample_one(ctx, inp)
+    elif cls == 'GaussianKDE.fit:model-aliases-caller-array' and 'X_overwrite' in inp:
         kde_alias_one(ctx, inp)
     elif cls.startswith('GaussianKDE.fit:') and 'X' in inp:
         kde_oracle_one(ctx, inp)
